@@ -31,6 +31,8 @@ ASSUMPTIONS = ["single-threaded use (the threaded build is property C18)",
                "malloc/free and the C memory model are outside the Coq model; double free / use after free are observed by ASan only"]
 
 KEYS = ["6b", "6b32", "61", "7e", "2f", "6d7e2f", "30", "31"]
+# enough distinct names to push a table through several resizes (16 -> 32 -> 64 -> 128 slots)
+MANY_KEYS = [("m%02d" % i).encode().hex() for i in range(90)]
 SIZE_MAX = (1 << 64) - 1
 
 
@@ -110,7 +112,9 @@ class Sim:
         if k == "a":
             return head + "[" + ",".join(self.dump(c) for _, c in nd["kids"]) + "]"
         if k == "o":
-            return head + "{" + ",".join((key.hex() or "-") + "=" + self.dump(c) for key, c in nd["kids"]) + "}"
+            ck = nd.get("ck", ())
+            return head + "{" + ",".join(("*" if key in ck else "") + (key.hex() or "-") + "=" + self.dump(c)
+                                         for key, c in nd["kids"]) + "}"
         return head
 
     def handle(self, s, null_ok=False):
@@ -138,7 +142,12 @@ class Sim:
             raise Bad("cycle")
 
     # ---------------------------------------------------------------- container primitives
-    def obj_add(self, p, key, v):
+    def obj_add(self, p, key, v, is_new=False, const=False):
+        """json_object_object_add_ex: the name of a new member is copied by the library unless the
+        caller lends it (CONSTANT_KEY); an existing member keeps its name and who owns it"""
+        present = any(ent[0] == key for ent in self.n[p]["kids"])
+        if is_new and present:
+            raise Bad("KEY_IS_NEW for a key that is present")
         if v == p:
             return -1
         self.transfer_ok(p, v)
@@ -148,6 +157,8 @@ class Sim:
                 break
         else:
             self.n[p]["kids"].append([key, v])
+            if const:
+                self.n[p].setdefault("ck", set()).add(key)
         if v is not None:
             self.L[v] -= 1
         return 0
@@ -213,11 +224,16 @@ class Sim:
             p, v = self.handle(a[1]), self.handle(a[3], True)
             self.want_kind(p, "o")
             r["ret"] = self.obj_add(p, unhex(a[2]), v)
+        elif a[0] == "addx":
+            p, v, f = self.handle(a[1]), self.handle(a[3], True), int(a[4])
+            self.want_kind(p, "o")
+            r["ret"] = self.obj_add(p, unhex(a[2]), v, bool(f & 1), bool(f & 2))
         elif a[0] == "del":
             p = self.handle(a[1])
             self.want_kind(p, "o")
             key = unhex(a[2])
             self.n[p]["kids"] = [e for e in self.n[p]["kids"] if e[0] != key]
+            self.n[p].get("ck", set()).discard(key)
         elif a[0] == "aadd":
             p, v = self.handle(a[1]), self.handle(a[2], True)
             self.want_kind(p, "a")
@@ -356,6 +372,7 @@ class Sim:
         else:
             key = self._unesc(tok)
             nd["kids"] = [e for e in nd["kids"] if e[0] != key]
+            nd.get("ck", set()).discard(key)
 
     def _patch_copy(self, v):
         if v is None:
@@ -565,7 +582,9 @@ class Gen:
         sim, rng = self.sim, self.rng
         if sim.n[p]["kind"] == "o":
             keys = [k.hex() or "-" for k, _ in sim.n[p]["kids"]]
-            key = rng.choice(keys) if keys and rng.random() < 0.45 else rng.choice(KEYS)
+            key = rng.choice(keys) if keys and rng.random() < 0.45 else rng.choice(KEYS if rng.random() < 0.7 else MANY_KEYS)
+            if rng.random() < 0.3:
+                return self.addx(p, key, v, kind)
             return self.do("add h%d %s %s" % (p, key, self.hs(v)), kind)
         ln = len(sim.n[p]["kids"])
         r = rng.random()
@@ -577,9 +596,52 @@ class Gen:
         idx = rng.choice([0, ln, ln + 3, rng.randint(0, ln + 1)])
         return self.do("ains h%d %d %s" % (p, idx, self.hs(v)), kind or ("insert-beyond" if idx > ln else None))
 
+    def addx(self, p, key, v, kind=None):
+        """json_object_object_add_ex with a random flag combination that keeps its promise"""
+        rng, sim = self.rng, self.sim
+        present = any((k.hex() or "-") == key for k, _ in sim.n[p]["kids"])
+        f = (2 if rng.random() < 0.45 else 0) | (1 if (not present and rng.random() < 0.4) else 0)
+        return self.do("addx h%d %s %s %d" % (p, key, self.hs(v), f),
+                       kind or ("add_ex-constant-key" if f & 2 else "add_ex-key-is-new" if f & 1 else "add_ex"))
+
+    def grow(self):
+        """an object that mixes lent (constant) and copied member names and grows through one or
+        more table resizes, then loses / replaces members and is looked at"""
+        rng, sim = self.rng, self.sim
+        p = self.container("o") if rng.random() < 0.5 else None
+        if p is None:
+            p = self.new("newobj")
+        target = rng.choice([12, 13, 17, 23, 24, 30, 45, 50])
+        keys = rng.sample(MANY_KEYS, target)
+        pconst = rng.choice([0.1, 0.3, 0.5, 0.9])
+        for i, key in enumerate(keys):
+            if not sim.live(p):
+                return
+            r = rng.random()
+            v = None if r < 0.6 else (self.new(rng.choice(["newint", "newbool", "newstr"])) if r < 0.9 else self.value_for(p))
+            if v is not None and (sim.owns(v) < 1 or sim.reach(v, p)):
+                v = None
+            f = (2 if rng.random() < pconst else 0) | (1 if rng.random() < 0.3 else 0)
+            if any(k.hex() == key for k, _ in sim.n[p]["kids"]):
+                f &= 2
+            self.do("addx h%d %s %s %d" % (p, key, self.hs(v), f), "grow-mixed-keys")
+        self.do("use h%d" % p)
+        for _ in range(rng.randint(0, 6)):
+            if not sim.live(p) or not sim.n[p]["kids"]:
+                break
+            k, _c = rng.choice(sim.n[p]["kids"])
+            if rng.random() < 0.5:
+                self.do("del h%d %s" % (p, k.hex() or "-"), "grow-mixed-keys")
+            else:
+                self.addx(p, k.hex() or "-", None, "grow-mixed-keys")
+        if sim.live(p):
+            self.do("use h%d" % p)
+
     def step(self):
         rng, sim = self.rng, self.sim
         r = rng.random()
+        if rng.random() < 0.012:
+            return self.grow()
         if not sim.n or r < 0.10:
             self.new()
         elif r < 0.30:
